@@ -9,22 +9,12 @@ namespace TbbVerif.C13
 /-- well-formed queue state: `mark ≤ size` and `data[0,mark)` is a heap -/
 def WF (h : Heap) : Prop := h.mark ≤ h.data.length ∧ IsHeap h.data h.mark
 
-/-- the heap part `data[0,mark)` -/
-def heapPart (h : Heap) : List Nat := h.data.take h.mark
-/-- pushed, not yet heapified elements `data[mark,size)` -/
-def pend (h : Heap) : List Nat := h.data.drop h.mark
-
-/-- a successful push of `x` as a spec event -/
-def pushEv (x : Nat) : Op × Res := (.push x false, .pushOk)
-def pushes (l : List Nat) : List (Op × Res) := l.map pushEv
-def strip (log : List Ev) : List (Op × Res) := log.map (fun e => (e.op, e.res))
-
 /-- Simulation relation: the spec's contents are the heap part; the elements of the tail are pushes that
 are not linearized yet (their callers are still waiting inside this batch or the pushes are linearized at
 the end of the batch). -/
-def Sim (h : Heap) (s : List Nat) : Prop := WF h ∧ s.Perm (heapPart h)
+def Sim (h : Heap) (s : List Elem) : Prop := WF h ∧ s.Perm (heapPart h)
 
-theorem specRun_append (s : List Nat) (a b : List (Op × Res)) :
+theorem specRun_append (s : List Elem) (a b : List (Op × Res)) :
     specRun s (a ++ b) = (specRun s a).bind (fun s' => specRun s' b) := by
   induction a generalizing s with
   | nil => simp [specRun]
@@ -34,24 +24,24 @@ theorem specRun_append (s : List Nat) (a b : List (Op × Res)) :
     | none => simp
     | some s' => simp [ih]
 
-theorem specRun_pushes (s l : List Nat) : specRun s (pushes l) = some (l.reverse ++ s) := by
+theorem specRun_pushes (s l : List Elem) : specRun s (pushes l) = some (l.reverse ++ s) := by
   induction l generalizing s with
   | nil => simp [pushes, specRun]
   | cons x xs ih =>
     simp only [pushes, List.map_cons, specRun, pushEv, specStep, Option.bind_some] at *
     rw [ih]; simp
 
-theorem specStep_push (s : List Nat) (x : Nat) : specStep s (pushEv x) = some (x :: s) := rfl
+theorem specStep_push (s : List Elem) (x : Elem) : specStep s (pushEv x) = some (x :: s) := rfl
 
-theorem specStep_pop (s : List Nat) (v : Nat) (h1 : v ∈ s) (h2 : ∀ y ∈ s, y ≤ v) :
+theorem specStep_pop (s : List Elem) (v : Elem) (h1 : v ∈ s) (h2 : ∀ y ∈ s, y.key ≤ v.key) :
     specStep s (.pop false, .popOk v) = some (s.erase v) := by
   simp only [specStep]; rw [if_pos ⟨h1, h2⟩]
 
-theorem perm_nil_eq {s : List Nat} (h : s.Perm []) : s = [] := List.Perm.eq_nil h
+theorem perm_nil_eq {s : List Elem} (h : s.Perm []) : s = [] := List.Perm.eq_nil h
 
 /-! ### single transitions of `handle_operations` -/
 
-theorem wf_push (h : Heap) (x : Nat) (w : WF h) :
+theorem wf_push (h : Heap) (x : Elem) (w : WF h) :
     WF { h with data := h.data ++ [x] } ∧ heapPart { h with data := h.data ++ [x] } = heapPart h ∧
     pend { h with data := h.data ++ [x] } = pend h ++ [x] := by
   obtain ⟨hm, hh⟩ := w
@@ -59,7 +49,7 @@ theorem wf_push (h : Heap) (x : Nat) (w : WF h) :
   · simp [heapPart, List.take_append_of_le_length hm]
   · simp [pend, List.drop_append_of_le_length hm]
 
-theorem back_drop (d : List Nat) (m : Nat) (h : m < d.length) : back (d.drop m) = back d := by
+theorem back_drop (d : List Elem) (m : Nat) (h : m < d.length) : back (d.drop m) = back d := by
   unfold back
   rw [get_drop, List.length_drop]
   congr 1; omega
@@ -68,9 +58,9 @@ theorem back_drop (d : List Nat) (m : Nat) (h : m < d.length) : back (d.drop m) 
 theorem wf_shortcut (h : Heap) (w : WF h) (hs : shortcut h = true) :
     WF { h with data := h.data.dropLast } ∧ heapPart { h with data := h.data.dropLast } = heapPart h ∧
     pend h = pend { h with data := h.data.dropLast } ++ [back h.data] ∧
-    (∀ y ∈ heapPart h, y ≤ back h.data) := by
+    (∀ y ∈ heapPart h, y.key ≤ (back h.data).key) := by
   obtain ⟨hm, hh⟩ := w
-  simp only [shortcut, Bool.and_eq_true, decide_eq_true_eq] at hs
+  rw [shortcut_iff] at hs
   obtain ⟨hlt, hcmp⟩ := hs
   refine ⟨⟨by simp; omega, hh.congr (fun i hi => get_dropLast _ _ (by omega))⟩, ?_, ?_, ?_⟩
   · simp only [heapPart, List.dropLast_eq_take, List.take_take]
@@ -90,7 +80,7 @@ theorem wf_shortcut (h : Heap) (w : WF h) (hs : shortcut h = true) :
 /-- heap pop when everything is heapified (`mark = size`) -/
 theorem wf_top_full (h : Heap) (w : WF h) (hl : 0 < h.data.length) (hfull : h.mark = h.data.length) :
     WF (reheap h) ∧ pend (reheap h) = [] ∧ pend h = [] ∧ get h.data 0 ∈ heapPart h ∧
-    (∀ y ∈ heapPart h, y ≤ get h.data 0) ∧ (heapPart (reheap h) ++ [get h.data 0]).Perm (heapPart h) := by
+    (∀ y ∈ heapPart h, y.key ≤ (get h.data 0).key) ∧ (heapPart (reheap h) ++ [get h.data 0]).Perm (heapPart h) := by
   obtain ⟨hm, hh⟩ := w
   have hmark := mark_reheap h hm hl
   have hlen := length_reheap h hm hl
@@ -106,7 +96,7 @@ theorem wf_top_full (h : Heap) (w : WF h) (hl : 0 < h.data.length) (hfull : h.ma
 /-- heap pop with a non-empty tail: `reheap` moves `data.back()` into the heap -/
 theorem wf_top_tail (h : Heap) (w : WF h) (h1 : 1 ≤ h.mark) (hlt : h.mark < h.data.length) :
     WF (reheap h) ∧ pend h = pend (reheap h) ++ [back h.data] ∧ get h.data 0 ∈ heapPart h ∧
-    (∀ y ∈ heapPart h, y ≤ get h.data 0) ∧
+    (∀ y ∈ heapPart h, y.key ≤ (get h.data 0).key) ∧
     (heapPart (reheap h) ++ [get h.data 0]).Perm (heapPart h ++ [back h.data]) := by
   obtain ⟨hm, hh⟩ := w
   have hl : 0 < h.data.length := by omega
@@ -151,16 +141,16 @@ theorem wf_top_nomark (h : Heap) (w : WF h) (h0 : h.mark = 0) (hl : 0 < h.data.l
 
 /-! ### the two passes -/
 
-/-- Simulation of the second pass: the deferred pops are linearized where they execute; a tail element is
+/-- Simulation of the second pass (`lin2`): the deferred pops are linearized where they execute; a tail element is
 linearized (its push) right before the pop that takes it, or right after the heap pop whose `reheap`
 moves it into the heap. -/
-theorem pass2_lin (dfr : List (Nat × Bool)) : (∀ p ∈ dfr, p.2 = false) → ∀ (h : Heap) (s : List Nat), Sim h s →
-    ∃ lin sf, specRun s lin = some sf ∧ Sim (pass2 h dfr).heap sf ∧ (pass2 h dfr).abort = none ∧
-      (lin ++ pushes (pend (pass2 h dfr).heap)).Perm (pushes (pend h) ++ strip (pass2 h dfr).log) := by
+theorem pass2_lin (dfr : List (Nat × Bool)) : (∀ p ∈ dfr, p.2 = false) → ∀ (h : Heap) (s : List Elem), Sim h s →
+    ∃ sf, specRun s (lin2 h dfr) = some sf ∧ Sim (pass2 h dfr).heap sf ∧ (pass2 h dfr).abort = none ∧
+      (lin2 h dfr ++ pushes (pend (pass2 h dfr).heap)).Perm (pushes (pend h) ++ strip (pass2 h dfr).log) := by
   induction dfr with
   | nil =>
     intro _ h s hs
-    exact ⟨[], s, rfl, hs, rfl, by simp [pass2, strip]⟩
+    exact ⟨s, rfl, hs, rfl, by simp [pass2, lin2, strip]⟩
   | cons p rest ih0 =>
     intro hnt h s hs
     have ih := ih0 (fun q hq => hnt q (List.mem_cons_of_mem _ hq))
@@ -168,31 +158,32 @@ theorem pass2_lin (dfr : List (Nat × Bool)) : (∀ p ∈ dfr, p.2 = false) → 
     have hthr : thr = false := hnt (i, thr) (by simp)
     subst hthr
     obtain ⟨w, hperm⟩ := hs
-    simp only [pass2, Bool.false_eq_true, if_false]
-    split
+    by_cases hemp' : isEmpty2 h = true
     · -- data empty: FAILED
-      rename_i hemp
+      have hemp : h.data.length = 0 := (isEmpty2_iff h).mp hemp'
+      simp only [pass2, lin2, hemp', if_true]
       have hs0 : s = [] := by
         apply perm_nil_eq
         have : heapPart h = [] := by
           simp only [heapPart]; apply List.take_eq_nil_iff.mpr; right
           exact List.eq_nil_of_length_eq_zero hemp
         rwa [this] at hperm
-      obtain ⟨lin, sf, hrun, hsim, hab, hp⟩ := ih h s ⟨w, hperm⟩
-      refine ⟨(.pop false, .popFailed) :: lin, sf, ?_, hsim, hab, ?_⟩
+      obtain ⟨sf, hrun, hsim, hab, hp⟩ := ih h s ⟨w, hperm⟩
+      refine ⟨sf, ?_, hsim, hab, ?_⟩
       · simp only [specRun, specStep, hs0, if_true, Option.bind_some]; rw [← hs0]; exact hrun
       · simp only [strip, List.map_cons] at *
         rw [List.perm_iff_count] at *
         intro a; have := hp a
         simp only [List.count_append, List.count_cons, List.cons_append] at *; omega
-    · rename_i hne
+    · have hne : ¬ h.data.length = 0 := fun e => hemp' ((isEmpty2_iff h).mpr e)
       have hl : 0 < h.data.length := by omega
-      split
+      by_cases hsc' : shortcut2 h = true
       · -- shortcut: take data.back()
-        rename_i hsc
+        have hsc : shortcut h = true := by rw [← shortcut2_eq]; exact hsc'
+        simp only [pass2, lin2, hemp', hsc', if_true, if_false, Bool.false_eq_true]
         obtain ⟨w', hpart, hpend, hmax⟩ := wf_shortcut h w hsc
-        obtain ⟨lin, sf, hrun, hsim, hab, hp⟩ := ih _ s ⟨w', by rw [hpart]; exact hperm⟩
-        refine ⟨pushEv (back h.data) :: (.pop false, .popOk (back h.data)) :: lin, sf, ?_, hsim, hab, ?_⟩
+        obtain ⟨sf, hrun, hsim, hab, hp⟩ := ih _ s ⟨w', by rw [hpart]; exact hperm⟩
+        refine ⟨sf, ?_, hsim, hab, ?_⟩
         · simp only [specRun, specStep_push, Option.bind_some]
           rw [specStep_pop _ _ (by simp) (by
             intro y hy
@@ -206,16 +197,16 @@ theorem pass2_lin (dfr : List (Nat × Bool)) : (∀ p ∈ dfr, p.2 = false) → 
           intro a; have := hp a
           simp only [List.count_append, List.count_cons, List.count_nil, List.cons_append] at *; omega
       · -- take the top, reheap
-        rename_i hsc
         by_cases hfull : h.mark = h.data.length
-        · obtain ⟨w', hpe', hpe, hmem, hmax, hpp⟩ := wf_top_full h w hl hfull
+        · simp only [pass2, lin2, hemp', hsc', hfull, if_true, if_false, Bool.false_eq_true]
+          obtain ⟨w', hpe', hpe, hmem, hmax, hpp⟩ := wf_top_full h w hl hfull
           have hmem' : get h.data 0 ∈ s := hperm.mem_iff.mpr hmem
           have hs' : (s.erase (get h.data 0)).Perm (heapPart (reheap h)) := by
             have : (get h.data 0 :: heapPart (reheap h)).Perm s :=
               (List.perm_append_comm (l₁ := [get h.data 0])).trans (hpp.trans hperm.symm)
             exact ((List.cons_perm_iff_perm_erase.mp this).2).symm
-          obtain ⟨lin, sf, hrun, hsim, hab, hp⟩ := ih _ _ ⟨w', hs'⟩
-          refine ⟨(.pop false, .popOk (get h.data 0)) :: lin, sf, ?_, hsim, hab, ?_⟩
+          obtain ⟨sf, hrun, hsim, hab, hp⟩ := ih _ _ ⟨w', hs'⟩
+          refine ⟨sf, ?_, hsim, hab, ?_⟩
           · simp only [specRun]
             rw [specStep_pop _ _ hmem' (fun y hy => hmax y (hperm.mem_iff.mp hy))]
             simpa using hrun
@@ -227,14 +218,17 @@ theorem pass2_lin (dfr : List (Nat × Bool)) : (∀ p ∈ dfr, p.2 = false) → 
             simp only [List.count_append, List.count_cons, List.cons_append] at *; omega
         · by_cases h0 : h.mark = 0
           · -- nothing heapified: data[0] is a just-pushed element
+            simp only [pass2, lin2, hemp', hsc', hfull, h0, if_true, if_false, Bool.false_eq_true]
+            have hfull' : ¬ 0 = h.data.length := by omega
+            simp only [hfull', if_false]
             obtain ⟨w', hm', hpp⟩ := wf_top_nomark h w h0 hl
             have hs0 : s = [] := by
               apply perm_nil_eq
               have : heapPart h = [] := by simp [heapPart, h0]
               rwa [this] at hperm
-            have hs' : ([] : List Nat).Perm (heapPart (reheap h)) := by simp [heapPart, hm']
-            obtain ⟨lin, sf, hrun, hsim, hab, hp⟩ := ih _ _ ⟨w', hs'⟩
-            refine ⟨pushEv (get h.data 0) :: (.pop false, .popOk (get h.data 0)) :: lin, sf, ?_, hsim, hab, ?_⟩
+            have hs' : ([] : List Elem).Perm (heapPart (reheap h)) := by simp [heapPart, hm']
+            obtain ⟨sf, hrun, hsim, hab, hp⟩ := ih _ _ ⟨w', hs'⟩
+            refine ⟨sf, ?_, hsim, hab, ?_⟩
             · subst hs0
               simp only [specRun, specStep_push, Option.bind_some]
               rw [specStep_pop _ _ (by simp) (by simp)]
@@ -244,7 +238,8 @@ theorem pass2_lin (dfr : List (Nat × Bool)) : (∀ p ∈ dfr, p.2 = false) → 
               rw [List.perm_iff_count] at *
               intro a; have := hp a; have := hpp' a
               simp only [List.count_append, List.count_cons, List.count_nil, List.cons_append] at *; omega
-          · obtain ⟨w', hpe, hmem, hmax, hpp⟩ := wf_top_tail h w (by omega) (by have := w.1; omega)
+          · simp only [pass2, lin2, hemp', hsc', hfull, h0, if_true, if_false, Bool.false_eq_true]
+            obtain ⟨w', hpe, hmem, hmax, hpp⟩ := wf_top_tail h w (by omega) (by have := w.1; omega)
             have hmem' : get h.data 0 ∈ s := hperm.mem_iff.mpr hmem
             have hs' : (back h.data :: s.erase (get h.data 0)).Perm (heapPart (reheap h)) := by
               have hc := List.count_erase_self (a := get h.data 0) (l := s)
@@ -262,8 +257,8 @@ theorem pass2_lin (dfr : List (Nat × Bool)) : (∀ p ∈ dfr, p.2 = false) → 
                 simp only [List.count_append, List.count_cons, List.count_nil, hne] at *
                 simp only [Bool.false_eq_true, if_false] at *
                 omega
-            obtain ⟨lin, sf, hrun, hsim, hab, hp⟩ := ih _ _ ⟨w', hs'⟩
-            refine ⟨(.pop false, .popOk (get h.data 0)) :: pushEv (back h.data) :: lin, sf, ?_, hsim, hab, ?_⟩
+            obtain ⟨sf, hrun, hsim, hab, hp⟩ := ih _ _ ⟨w', hs'⟩
+            refine ⟨sf, ?_, hsim, hab, ?_⟩
             · simp only [specRun]
               rw [specStep_pop _ _ hmem' (fun y hy => hmax y (hperm.mem_iff.mp hy))]
               simp only [Option.bind_some, specStep_push]
@@ -274,16 +269,16 @@ theorem pass2_lin (dfr : List (Nat × Bool)) : (∀ p ∈ dfr, p.2 = false) → 
               intro a; have := hp a
               simp only [List.count_append, List.count_cons, List.count_nil, List.cons_append] at *; omega
 
-/-- Simulation of the first pass: pushes only extend the tail (they are linearized later), a pop that takes
+/-- Simulation of the first pass (`lin1`): pushes only extend the tail (they are linearized later), a pop that takes
 `data.back()` is linearized right after the push of that element, deferred pops are not linearized yet. -/
-theorem pass1_lin (ops : List (Op × Nat)) : (∀ p ∈ ops, p.1 ≠ .pop true) → ∀ (h : Heap) (s : List Nat), Sim h s →
-    ∃ lin sf, specRun s lin = some sf ∧ Sim (pass1 h ops).heap sf ∧ (pass1 h ops).abort = none ∧
+theorem pass1_lin (ops : List (Op × Nat)) : (∀ p ∈ ops, p.1 ≠ .pop true) → ∀ (h : Heap) (s : List Elem), Sim h s →
+    ∃ sf, specRun s (lin1 h ops) = some sf ∧ Sim (pass1 h ops).heap sf ∧ (pass1 h ops).abort = none ∧
       (∀ p ∈ (pass1 h ops).dfr, p.2 = false) ∧
-      (lin ++ pushes (pend (pass1 h ops).heap)).Perm (pushes (pend h) ++ strip (pass1 h ops).log) := by
+      (lin1 h ops ++ pushes (pend (pass1 h ops).heap)).Perm (pushes (pend h) ++ strip (pass1 h ops).log) := by
   induction ops with
   | nil =>
     intro _ h s hs
-    exact ⟨[], s, rfl, hs, rfl, by simp [pass1], by simp [pass1, strip]⟩
+    exact ⟨s, rfl, hs, rfl, by simp [pass1], by simp [pass1, lin1, strip]⟩
   | cons o rest ih0 =>
     intro hnt h s hs
     have ih := ih0 (fun q hq => hnt q (List.mem_cons_of_mem _ hq))
@@ -296,12 +291,11 @@ theorem pass1_lin (ops : List (Op × Nat)) : (∀ p ∈ ops, p.1 ≠ .pop true) 
         | false => rfl
         | true => exact absurd rfl (hnt (.pop true, i) (by simp))
       subst hthr
-      simp only [pass1, Bool.false_eq_true, if_false]
-      split
-      · rename_i hsc
+      by_cases hsc : shortcut h = true
+      · simp only [pass1, lin1, hsc, Bool.false_eq_true, if_false, if_true]
         obtain ⟨w', hpart, hpend, hmax⟩ := wf_shortcut h w hsc
-        obtain ⟨lin, sf, hrun, hsim, hab, hdf, hp⟩ := ih _ s ⟨w', by rw [hpart]; exact hperm⟩
-        refine ⟨pushEv (back h.data) :: (.pop false, .popOk (back h.data)) :: lin, sf, ?_, hsim, hab, hdf, ?_⟩
+        obtain ⟨sf, hrun, hsim, hab, hdf, hp⟩ := ih _ s ⟨w', by rw [hpart]; exact hperm⟩
+        refine ⟨sf, ?_, hsim, hab, hdf, ?_⟩
         · simp only [specRun, specStep_push, Option.bind_some]
           rw [specStep_pop _ _ (by simp) (by
             intro y hy
@@ -314,30 +308,29 @@ theorem pass1_lin (ops : List (Op × Nat)) : (∀ p ∈ ops, p.1 ≠ .pop true) 
           rw [List.perm_iff_count] at *
           intro a; have := hp a
           simp only [List.count_append, List.count_cons, List.count_nil, List.cons_append] at *; omega
-      · obtain ⟨lin, sf, hrun, hsim, hab, hdf, hp⟩ := ih h s ⟨w, hperm⟩
-        refine ⟨lin, sf, hrun, hsim, hab, ?_, hp⟩
+      · simp only [pass1, lin1, hsc, Bool.false_eq_true, if_false]
+        obtain ⟨sf, hrun, hsim, hab, hdf, hp⟩ := ih h s ⟨w, hperm⟩
+        refine ⟨sf, hrun, hsim, hab, ?_, hp⟩
         intro q hq
         rcases List.mem_append.mp hq with hq | hq
         · exact hdf q hq
         · simp at hq; rw [hq]
     | push x thr =>
-      simp only [pass1]
-      split
-      · rename_i hthr
-        obtain ⟨lin, sf, hrun, hsim, hab, hdf, hp⟩ := ih h s ⟨w, hperm⟩
-        refine ⟨(.push x thr, .pushFailed) :: lin, sf, ?_, hsim, hab, hdf, ?_⟩
-        · subst hthr
-          simpa [specRun, specStep] using hrun
+      cases thr with
+      | true =>
+        simp only [pass1, lin1, if_true]
+        obtain ⟨sf, hrun, hsim, hab, hdf, hp⟩ := ih h s ⟨w, hperm⟩
+        refine ⟨sf, ?_, hsim, hab, hdf, ?_⟩
+        · simpa [specRun, specStep] using hrun
         · simp only [strip, List.map_cons] at *
           rw [List.perm_iff_count] at *
           intro a; have := hp a
           simp only [List.count_append, List.count_cons, List.cons_append] at *; omega
-      · rename_i hthr
-        have hthr : thr = false := by simpa using hthr
-        subst hthr
+      | false =>
+        simp only [pass1, lin1, Bool.false_eq_true, if_false]
         obtain ⟨w', hpart, hpend⟩ := wf_push h x w
-        obtain ⟨lin, sf, hrun, hsim, hab, hdf, hp⟩ := ih _ s ⟨w', by rw [hpart]; exact hperm⟩
-        refine ⟨lin, sf, hrun, hsim, hab, hdf, ?_⟩
+        obtain ⟨sf, hrun, hsim, hab, hdf, hp⟩ := ih _ s ⟨w', by rw [hpart]; exact hperm⟩
+        refine ⟨sf, hrun, hsim, hab, hdf, ?_⟩
         rw [hpend] at hp
         simp only [strip, List.map_cons, pushes, List.map_append, List.map_nil] at *
         rw [List.perm_iff_count] at *
